@@ -16,7 +16,9 @@ shape of `<Formatted<Number> as Display>::fmt` and of the CSS value writer:
        or width/precision spec), and MIR shows only `Argument::new_display`;
  (v)   calc() wrapping: in the CSS value writer the `calc(` prefix of a number is guarded by a
        condition that contains `!..is_finite()`.
-The leading-zero clause (dropped only in compressed style) is C08's style-read rule.
+The leading-zero clause (dropped only in compressed style) is C08's style-read rule; C10 adds
+ (vi)  the integer part is left out only under a test of the printed fraction buffer (so a number
+       never prints without any digit).
 """
 import re
 
@@ -350,6 +352,40 @@ def negative_zero(ctx, f, buf):
             ctx.fail("negative-zero", f"sign-write#{n}", f"`-` is written under `{text[:80] or 'no condition'}`, which does not test {', '.join(missing)}: a value that prints as 0 can get a minus sign", where=f["path"])
 
 
+def integer_part_guard(ctx, f, buf):
+    """the integer part may be left out (compressed `.5`) only when the *printed* fraction is non-empty: the
+    condition under which `{whole}` is not written must consult the fraction buffer, otherwise a value whose
+    fraction rounds away prints as the empty string"""
+    whole_writes = []
+    for x in emissions(f["body"]):
+        if x["m"] == "write_fmt" and not (A.strip(x["recv"]).get("e") == "path" and A.strip(x["recv"])["p"] == buf):
+            fm = [y for y in A.walk(x["args"][0]) if y.get("e") == "fmt"]
+            if len(fm) == 1 and re.fullmatch(r"\{0\}", fm[0]["template"] or "") and A.strip(fm[0]["args"][0]["x"]).get("e") == "path":
+                whole_writes.append(x)
+    if len(whole_writes) != 1:
+        ctx.anchor_lost("number writer integer part write", f"found {len(whole_writes)}")
+        return
+    conds = enclosing_conditions(f["body"], whole_writes[0])
+    if not conds:
+        ctx.ok("integer-part-guard", "integer part", "always written")
+        return
+    exprs = []
+    for c in conds:
+        c = A.strip(c)
+        exprs.append(c)
+        for x in A.walk(c):
+            if x.get("e") == "path":
+                r = resolve_local(f, x["p"])
+                if r is not None and x["p"] != buf:
+                    exprs.append(r)
+    mentions = any(contains(e, lambda y: y.get("e") == "path" and y["p"] == buf) for e in exprs)
+    text = " / ".join(A.show(e)[:60] for e in exprs)
+    if mentions:
+        ctx.ok("integer-part-guard", "integer part", f"omitted only under a test of the printed fraction: {text[:120]}")
+    else:
+        ctx.fail("integer-part-guard", "integer part", f"the integer part is left out under `{text[:160]}`, which does not consult the printed fraction `{buf}`: a value whose fraction rounds to nothing prints without any digit", where=f["path"])
+
+
 # ------------------------------------------------------------------ (iv) plain notation
 
 def plain_notation(ctx, F, f):
@@ -415,5 +451,6 @@ def run(ctx, F):
     buf = digit_bound(ctx, f)
     if buf:
         negative_zero(ctx, f, buf)
+        integer_part_guard(ctx, f, buf)
     plain_notation(ctx, F, f)
     calc_wrap(ctx, tree)
